@@ -71,6 +71,7 @@ type explorer struct {
 	maxTraceLen  int
 	wall         float64
 	budgetHit    bool
+	modelsTaken  int
 }
 
 type exploreOpts struct {
@@ -102,6 +103,34 @@ func (x *explorer) stopped() bool {
 		return true
 	}
 	return false
+}
+
+// wantConcordance selects the paths whose full model is extracted and replayed
+// natively: all of the first ones, then a hash-selected fraction.
+func (x *explorer) wantConcordance(trace []decision) bool {
+	x.mu.Lock()
+	n := x.modelsTaken
+	x.mu.Unlock()
+	rate := uint32(1)
+	switch {
+	case n >= x.opts.ConcordMax:
+		return false
+	case n >= x.opts.ConcordMax/2:
+		rate = 16
+	case n >= x.opts.ConcordMax/4:
+		rate = 4
+	}
+	h := uint32(2166136261)
+	for _, d := range trace {
+		h = (h ^ uint32(d.Choice+1)) * 16777619
+	}
+	if h%rate != 0 {
+		return false
+	}
+	x.mu.Lock()
+	x.modelsTaken++
+	x.mu.Unlock()
+	return true
 }
 
 func (x *explorer) noteUnknownBranch(c *Term) {
@@ -253,6 +282,9 @@ func (x *explorer) runPath(pool []*Solver, prefix []decision) {
 	// final model / feasibility of the whole path, expected observations
 	var vio []violation
 	needModel := end == "return" || end == "exit" || end == "run-panic" || end == "overflow" || end == "define-panic"
+	if needModel && end != "run-panic" && end != "overflow" && !m.pcUnknown && !x.wantConcordance(m.trace) {
+		needModel = false
+	}
 	if needModel {
 		func() {
 			defer func() {
